@@ -8,6 +8,7 @@ git -C /repo worktree add -q --detach "$WT" HEAD || exit 2
 trap 'git -C /repo worktree remove --force "$WT" >/dev/null 2>&1' EXIT INT TERM
 git -C "$WT" apply "$P" || { echo "patch does not apply"; exit 2; }
 cd /verif
+export VERIF_EVIDENCE_DIR="$WT/.verif-evidence" VERIF_REPLAYS_DIR="$WT/.verif-replays"   # a seeded run must not overwrite the real evidence
 rc=0
 for id in "$@"; do
   PYTHONPATH="$WT/src" ./check "$id" ${TIER:+--tier $TIER} > "/var/tmp/try_$id.out" 2>&1; r=$?
